@@ -592,6 +592,11 @@ class Folder:
                 if isinstance(v, list) and v and isinstance(v[0], list):
                     return [[row[j] for row in v] for j in range(len(v[0]))]
                 raise Unfoldable("transpose of a non-matrix")
+            if node.attr in ("device", "is_cuda", "requires_grad"):
+                v = self.fold(node.value)
+                if isinstance(v, (list, int, float, complex)) and not isinstance(v, (PySeq, bool)):
+                    return "cpu" if node.attr == "device" else False
+                raise Unfoldable(f"{node.attr} of a non-tensor")
             if node.attr == "ndim":
                 v = self.fold(node.value)
                 d = 0
